@@ -7,7 +7,7 @@ from .core import (ModelGap, dtype, generic, ndarray, array, asarray, asanyarray
                    int16, int32, int64, uint8, uint16, uint32, uint64, float16, float32,
                    float64, object_, str_, intp, int_, double)
 from .funcs import *          # noqa: F401,F403
-from .funcs import (sum, min, max, all, any, abs, round, pi, e, inf, nan, newaxis)  # noqa
+from .funcs import (sum, min, max, all, any, abs, round, pi, e, inf, nan, newaxis, linspace, lazyarr)  # noqa
 from . import funcs as _funcs
 from . import core as _core
 from . import scalars
